@@ -20,7 +20,8 @@ MANIFEST = {
             "gone since the fix that closes a channel which cannot get a stream id <= 65535 is modelled); every wire parser (SCTP packets/chunks/parameters/RE-CONFIG, RTP, header extensions, RTCP, REMB, H.264 and VP8 "
             "payload descriptors) returns a value or ValueError for every input (`parsers_total`); RTP/RTCP: the dispatch around the parsers "
             "(`_recv_next` demultiplexing, `_handle_rtp_data`, `_handle_rtcp_data`, receiver and sender RTCP/RTP handlers) is total on states "
-            "satisfying the component invariants and `still_alive` shows these are preserved. The models are tied to the real code by replaying "
+            "satisfying the component invariants (receivers: jitter buffer / statistics / NACK generator / timestamp mapper; senders: the RTX sequence "
+            "number is a 16-bit number, from every origin and after any number of retransmissions - `rtx_counter_every_origin`) and `still_alive` shows these are preserved. The models are tied to the real code by replaying "
             "recorded runs of REAL endpoints / transports / receivers / senders with hostile datagrams injected in every protocol state.",
     "note": "Partial: `rx_never_crashes_proved` assumes no queued message of a channel still waiting for its stream id, only reliable traffic "
             "in the send queues and NO armed re-entrant handler (a handler may send on a partially reliable channel opened by the peer); `rx_never_crashes2_proved` / `reachable_rx_never_crashes_proved` drop both (a peer occupying every stream id of the "
